@@ -191,3 +191,9 @@
 (define-fun slashBurn ((r (Array Key Bytes)) (rid Bytes)) (Slice Coin)
   (newCoins (oneCoin baseDenom (decTrunc (decMul (decFromInt (amt (ServiceBinding_Deposit (bindOf r (reqSvc r rid) (reqProv r rid))) baseDenom)) (Params_SlashFraction params))))))
 (define-fun malformed ((output Str)) Bool (and (> (strlen output) 0) (not (= (validateOutputErr output) NoErr))))
+
+; clean-up of a batch's request and response records (CleanBatch): a key is cleaned iff it is a request of the batch,
+; or the response of a request of the batch that was present
+(define-fun cleanedKey ((old (Array Key Bytes)) (id Bytes) (b Int) (k Key)) Bool
+  (or (and (is-KReq k) (inPfx k (PReqByCtx id b)))
+      (and (is-KResp k) (not (= (select old (KReq (kresp_rid k))) bnil)) (inPfx (KReq (kresp_rid k)) (PReqByCtx id b)))))
